@@ -334,6 +334,7 @@ PROG = r'''// generated replay program -- %(what)s
 #include <sstream>
 %(tdef)s
 #include <bspline/Core.h>
+#define _Bool bool
 #define BS_CAP %(cap)dUL
 #define BS_NG 4UL
 #define BS_NULLID (~(size_t)0)
@@ -464,11 +465,8 @@ def one_phase(rec, r, o, blocks, bsv, clause, concretise, notes):
     for shim in bsv.SHIM_CONTRACTS + sorted(set(re.findall(r'\b(vec_\w+_eq)\(', ctext[ctext.index('rt/harness.h'):]))):
         if re.search(r'\b%s\(' % shim, ctext[ctext.index('rt/harness.h'):]):
             cmd += ['--replace-call-with-contract', shim]
-    try:
-        src_gb, lf = bsv.prepare_loops(base + '.a.gb', base + '.u.gb', ctext, cfile, b)
-    except bsv.Undecided:
-        src_gb, lf = base + '.a.gb', []
-    cmd += lf + [src_gb, base + '.b.gb']
+    # like the small-instance stage: loop contracts are not applied, loops are unwound (vectors have <= 8 elements)
+    cmd += [base + '.a.gb', base + '.b.gb']
     rc, out, err, dt = bsv.sh(cmd, 300)
     if rc != 0:
         notes.append('replay harness does not instrument')
@@ -612,7 +610,12 @@ def one_phase(rec, r, o, blocks, bsv, clause, concretise, notes):
     ok, text = compile_and_run(cpp, bsv.REPO, sanitize=(clause is None))
     rec['replay_output'] = text[-3000:]
     if not ok:
-        notes.append('phase %s: the real code does not violate the clause on this input' % ('B' if concretise else 'A'))
+        if 'does not compile' in text:
+            notes.append('phase %s: the replay program does not compile (a limitation of the replay generator, see replay_output)' % ('B' if concretise else 'A'))
+        elif 'NOT-BUILDABLE' in text:
+            notes.append('phase %s: the model input cannot be built through the public constructors' % ('B' if concretise else 'A'))
+        else:
+            notes.append('phase %s: the real code does not violate the clause on this input' % ('B' if concretise else 'A'))
     return ok
 
 
